@@ -175,6 +175,7 @@ func checkC07(c *h.Check) {
 	// Family C: deterministic scaling families, each alone under a time cap.
 	scal := scalingCases(thorough)
 	rn := h.NewRunner(c.S)
+	rn.Deadline = c.Deadline
 	rn.BatchSize = 1
 	rn.Workers = 8
 	rn.GenTimeout = 60 * time.Second
